@@ -362,3 +362,11 @@ package compile
 //@   ensures iff(result == nil, !is(sn, schema.Choice) || sch_defaultcase(sn) == "" || (c.filter != nil && !apply_filter(c.filter, sn)) ||
 //@           exists(j, 0, sch_nchoices(sn), node_name(sch_choice(sn, j)) == sch_defaultcase(sn)))
 //@   loop 0 invariant forall(j, 0, loopidx+1, node_name(sch_choice(sn, j)) != sch_defaultcase(sn))
+
+// Applicable restriction kinds (C13): a type statement that passes validateRestrictions has no restriction
+// substatement that the table does not list for its base type's kind - whatever was compiled before it.
+//@ define isRestriction(t) = t > parse.NodeTypeRestrictionStart && t < parse.NodeTypeRestrictionEnd
+//@ func (*Compiler).validateRestrictions
+//@   requires c != nil && n != nil
+//@   ensures forall(i, 0, node_nchildren(n), implies(isRestriction(node_type(node_childat(n, i))), inmap(validRestrictionsType[schemaType], node_type(node_childat(n, i)))))
+//@   loop 0 invariant forall(i, 0, loopidx+1, implies(isRestriction(node_type(node_childat(n, i))), inmap(validRestrictionsType[schemaType], node_type(node_childat(n, i)))))
